@@ -69,6 +69,46 @@ mut("keeplast_stale_traversal_weight", "src/graph/creation.rs",
 mut("predecessors_vec_not_updated_on_multi_min", "src/graph/creation.rs",
     "                true => weight < adjacency_vec[u_node_index][index].weight,", "                true => weight <= adjacency_vec[u_node_index][index].weight && v_node_index != 2,", ["C03"])
 
+# ---- further clauses (second round)
+mut("louvain_communities_returns_first_level", "src/algorithms/community/louvain.rs",
+    "        false => Ok(partitions.pop().unwrap()),", "        false => Ok(partitions.swap_remove(0)),", ["C13"])
+mut("louvain_tiebreak_removed", "src/algorithms/community/louvain.rs",
+    "    candidates.sort_by_key(|(nbr_com, _)| *nbr_com);\n", "", ["C17"])
+mut("louvain_directed_gain_out_only", "src/algorithms/community/louvain.rs",
+    "            if graph.specs.directed {\n                // the modularity gain", "            if graph.specs.directed && graph.number_of_nodes() < 4 {\n                // the modularity gain", ["C13"])
+mut("reverse_loses_weight_of_self_loops", "src/graph/convert.rs",
+    "            .map(|edge| edge.clone().reversed().into())", "            .map(|edge| if edge.u == edge.v { Edge::new(edge.u.clone(), edge.v.clone()) } else { edge.clone().reversed().into() })", ["C15"])
+mut("to_single_edges_max_instead_of_sum", "src/graph/convert.rs",
+    "    let sum_weight = v.iter().map(|e| e.weight).sum();", "    let sum_weight = v.iter().map(|e| e.weight).fold(f64::NAN, f64::max);", ["C15"])
+mut("subgraph_keeps_edges_with_one_end", "src/graph/subgraph.rs",
+    ".filter(|e| nodes_set.contains(&e.u) && nodes_set.contains(&e.v))", ".filter(|e| nodes_set.contains(&e.u) && (nodes_set.contains(&e.v) || nodes_set.len() > 4))", ["C15"])
+mut("weak_components_ignore_predecessors_of_late_nodes", "src/algorithms/components/weak_connectivity.rs",
+    "                    .union(gpred.get(&v).unwrap_or(&empty_hs))", "                    .union(if connected_nodes.len() > 6 { &empty_hs } else { gpred.get(&v).unwrap_or(&empty_hs) })", ["C10"])
+mut("modularity_directed_in_degree_is_out_degree", "src/algorithms/community/partitions.rs",
+    "            true => community.iter().map(|n| in_degree.get(n).unwrap()).sum(),", "            true => community.iter().map(|n| out_degree.get(n).unwrap()).sum(),", ["C12"])
+mut("eigenvector_convergence_test_looser", "src/algorithms/centrality/eigenvector.rs",
+    "        if y < (nnodes as f64 * _tolerance) {", "        if y < (nnodes as f64 * _tolerance) * 50.0 + 0.2 {", ["C18"])
+mut("eigenvector_returns_vector_on_exhaustion", "src/algorithms/centrality/eigenvector.rs",
+    "    Err(Error {\n        kind: ErrorKind::PowerIterationFailedConvergence,", "    if _max_iter > 3 { return Ok(x); }\n    Err(Error {\n        kind: ErrorKind::PowerIterationFailedConvergence,", ["C18"])
+mut("gnp_seed_only_low_bits", "src/generators/random.rs",
+    "        Some(s) => Box::new(ChaCha20Rng::seed_from_u64(s)),", "        Some(s) => Box::new(ChaCha20Rng::seed_from_u64(s ^ (std::process::id() as u64))),", ["C17"])
+mut("gnp_directed_allows_self_loop_slot", "src/generators/random.rs",
+    "        if v == w {\n            w += 1;\n        }\n        while v < num_nodes && num_nodes <= w {", "        if v == w && v < 6 {\n            w += 1;\n        }\n        while v < num_nodes && num_nodes <= w {", ["C16"])
+mut("complete_graph_directed_misses_reverse_pairs", "src/generators/classic.rs",
+    "        true => (0..num_nodes).permutations(2).collect::<Vec<Vec<i32>>>(),", "        true => (0..num_nodes).permutations(2).filter(|p| p[0] < p[1] || p[0] < 40).collect::<Vec<Vec<i32>>>(),", ["C16"])
+mut("in_edges_for_nodes_uses_source", "src/graph/query.rs",
+    "            .filter(|e| names_set.contains(&e.v))", "            .filter(|e| names_set.contains(&e.v) || (e.u == e.v && names_set.contains(&e.u)) || (names_set.len() > 2 && names_set.contains(&e.u)))", ["C02"])
+mut("transitivity_counts_triples_once_too_few", "src/algorithms/cluster/mod.rs",
+    "        false => Ok(triangles / contri),", "        false => Ok(if contri > 40.0 { triangles / (contri - 2.0) } else { triangles / contri }),", ["C11"])
+mut("directed_clustering_reciprocal_degree_counts_self", "src/algorithms/cluster/directed.rs",
+    "            let reciprocal_degree = ipreds.intersection(&isuccs).count();", "            let reciprocal_degree = ipreds.intersection(&isuccs).count().min(2);", ["C11"])
+mut("graphml_weight_parse_garbage_as_zero", "src/readwrite/graphml.rs",
+    "let weight = text.trim().parse::<f64>().map_err(|_| {", "let weight = text.trim().trim_end_matches(|c: char| c.is_alphabetic()).parse::<f64>().map_err(|_| {", ["C14"])
+mut("degree_centrality_divides_by_n", "src/algorithms/centrality/degree.rs",
+    "    let s = 1.0 / (num_nodes as f64 - 1.0);", "    let s = if num_nodes > 9 { 1.0 / num_nodes as f64 } else { 1.0 / (num_nodes as f64 - 1.0) };", ["C09"])
+mut("bfs_partitions_drop_node_when_full", "src/algorithms/components/weak_connectivity.rs",
+    "    let partition_max_size = (graph.number_of_nodes() / num_partitions) + 1;", "    let partition_max_size = (graph.number_of_nodes() / num_partitions) + 2;", ["C10"])
+
 
 def run(cmd, cwd=None, timeout=3600):
     return subprocess.run(cmd, cwd=cwd, shell=True, stdout=subprocess.PIPE, stderr=subprocess.STDOUT, text=True, timeout=timeout)
